@@ -39,12 +39,15 @@ def mk(kind):
         s = z3.BitVec('ss%d' % l.n, 32); l.n += 1; h.ex.assume(z3.ULE(s, 59))
         return h.time(12, 30, s)
     def lst(h, l):
-        n = h.ex.pick(3)
+        n = h.ex.pick(4)
+        if n == 3: return h.list_([h.null()])
         return h.list_([h.num(fnn(h.ex, l)) for _ in range(n)])
     def dct(h, l):
         pairs = []
         for k in (b'a', b'b', b'c'):
-            if h.ex.pick(2): pairs.append((k, h.num(fnn(h.ex, l))))
+            j = h.ex.pick(3 if k == b'c' else 2)
+            if j == 1: pairs.append((k, h.num(fnn(h.ex, l))))
+            elif j == 2: pairs.append((k, h.null()))       # a tag present with a Null value is not an absent tag
         return h.dict_(pairs)
     def grid(h, l):
         rows = [[(b'a', h.num(fnn(h.ex, l)))]] if h.ex.pick(2) else []
